@@ -96,7 +96,7 @@ func H04Grammar() {
 	vndObserveStr("u", u)
 }
 
-var h04Chars = []string{"n", "s", "M", "B", "/", "*", " ", "\u00e0", "\u0085"} // U+00E0 ends in byte 0xA0; U+0085 (NEL) is a space
+var h04Chars = []string{"n", "s", "M", "B", "/", "*", " ", "\u00e0", "\u0085", "\u00a0", "\n"} // U+00E0 ends in byte 0xA0; NEL, NBSP and newline are spaces
 
 // H04GrammarWide: units whose characters include a letter and a space that
 // are multi-byte in UTF-8.
@@ -110,7 +110,7 @@ func H04GrammarWide() {
 		switch k {
 		case 7:
 			ref = append(ref, 'x')
-		case 8:
+		case 8, 9, 10:
 			ref = append(ref, ' ')
 		default:
 			ref = append(ref, h04Chars[k]...)
